@@ -1411,6 +1411,10 @@ func corner() []Spec {
 				{{3, 1, 0}, {f32(0.25), f32(0.5), f32(0.75), f32(0.125), f32(0), f32(1)}}}})
 		// no vertices at all
 		out = append(out, Spec{Fmt: f, Sep: " ", FloatFmt: "g", VProps: xyz})
+		// uchar (s, t) on the vertices and a face element with a texcoord list but no face: TexCoord stays the vertices' pair
+		out = append(out, Spec{Fmt: f, Sep: " ", FloatFmt: "g", VProps: append(append([]VProp(nil), xyz...), vp("uchar", "s"), vp("uchar", "t")),
+			Verts:   [][]uint64{{f32(1), f32(2), f32(3), 254, 13}, {f32(4), f32(5), f32(6), 212, 187}, {f32(7), f32(8), f32(9), 176, 1}},
+			HasFace: true, FProps: []FProp{tri, tex}})
 	}
 	return out
 }
